@@ -141,14 +141,17 @@ static MAX_DEPTH: AtomicUsize = AtomicUsize::new(0);
 fn monitor() -> &'static Mutex<Monitor> {
     static M: OnceLock<Mutex<Monitor>> = OnceLock::new();
     M.get_or_init(|| {
-        extern "C" fn at_exit() {
-            dump_stats("exit");
-        }
-        extern "C" {
-            fn atexit(cb: extern "C" fn()) -> i32;
-        }
-        unsafe {
-            atexit(at_exit);
+        #[cfg(not(miri))]
+        {
+            extern "C" fn at_exit() {
+                dump_stats("exit");
+            }
+            extern "C" {
+                fn atexit(cb: extern "C" fn()) -> i32;
+            }
+            unsafe {
+                atexit(at_exit);
+            }
         }
         Mutex::new(Monitor::default())
     })
